@@ -3,7 +3,7 @@
 #include "zuc_core.h"
 #include "src/zuc.c"
 #include "stubs_stdio.h"
-typedef struct { ZUC_STATE st; uint8_t first[8]; size_t inlen, gk; } zu_in;
+typedef struct { ZUC_STATE st; uint8_t first[8]; size_t inlen, gk; uint8_t same; } zu_in;
 DECL_INPUT(zu_in);
 //@job name=zuc_encrypt props=C04,C06 enforce=zuc_encrypt unwindset=zuc_encrypt.*:16 partial=1 bounded=inlen<=8(two-LFSR-steps;word-loop-unwound,no-unwinding-assertion) timeout=900 solver=kissat
 void h_zuc_encrypt(void)
@@ -11,9 +11,15 @@ void h_zuc_encrypt(void)
 	INPUT(zu_in, H); ASSUME(H.inlen <= 8 && H.gk < 16); verif_gk = H.gk;
 	ASSUME(H.st.LFSR[0] <= 0x7fffffffu && H.st.LFSR[1] <= 0x7fffffffu && H.st.LFSR[4] <= 0x7fffffffu && H.st.LFSR[5] <= 0x7fffffffu
 		&& H.st.LFSR[10] <= 0x7fffffffu && H.st.LFSR[11] <= 0x7fffffffu && H.st.LFSR[13] <= 0x7fffffffu && H.st.LFSR[14] <= 0x7fffffffu && H.st.LFSR[15] <= 0x7fffffffu);
-	ZUC_STATE *st = malloc(sizeof(*st)); ASSUME(st); *st = H.st;
-	MKBUF(in, H.first, H.inlen); MKOUT(out, H.inlen);
+	/* H.same: the input is ctx->block of the ZUC_CTX that holds the state (the call shape of zuc_encrypt_update / finish) */
+	ZUC_CTX *cx = malloc(sizeof(*cx)); ASSUME(cx); cx->zuc_state = H.st;
+	cx->block[0] = H.first[0]; cx->block[1] = H.first[1]; cx->block[2] = H.first[2]; cx->block[3] = H.first[3];
+	ZUC_STATE *st = &cx->zuc_state;
+	MKBUF(in0, H.first, H.inlen); MKOUT(out, H.inlen);
+	ASSUME(!H.same || H.inlen <= 4);
+	const uint8_t *in = H.same ? cx->block : in0;
 	zuc_encrypt(st, in, H.inlen, out);
+	if (H.same && H.inlen == 3) CANARY("input-inside-ctx");
 	if (H.inlen == 3) CANARY("tail-only");
 	if (H.inlen == 7) CANARY("word-and-tail");
 	if (H.inlen == 8) CANARY("two-words");
